@@ -181,9 +181,10 @@ func (k Keeper) ProcessBridgeRequest(ctx context.Context, reqs goattypes.BridgeR
 	}
 
 	for _, v := range reqs.DepositTax {
-		param.MaxDepositTax = v.Max
+		// an out-of-range request is ignored as a whole
 		if v.Rate < types.MaxTaxBP {
 			param.DepositTaxRate = v.Rate
+			param.MaxDepositTax = v.Max
 		}
 	}
 
